@@ -11,6 +11,7 @@ import LentilVerif.Gen.FieldInit
 import LentilVerif.Lemmas.FieldMergeFlow
 import LentilVerif.Gen.FieldOverlapPair
 import LentilVerif.Gen.FieldMergeOrigin
+import LentilVerif.Lemmas.FieldPublicFlow
 import Mathlib.Algebra.Ring.Defs
 import Mathlib.Tactic.SplitIfs
 import Mathlib.Algebra.GroupWithZero.Defs
@@ -1162,6 +1163,53 @@ example : groupOutFlow (fun _ => none) [(5 : Int)] = some 5 ∧ groupOutFlow (fu
 
 end reduce_flow
 
+/-! ### `_reduce`, public `overlap`, public `merge` from their regenerated pieces -/
+section public_flow
+variable {K : Type}
+
+/-- **the group construction of `_reduce`, regenerated** (`[{'field': [f], 'extent': f.extent} for f in fields]`: one copy of
+`f`, the member's cached extent): the groups `reduce` / `overlap` start `_disjoint` from are the model's singletons -/
+theorem reduce_init_flow_spec (fs : List (Fld K)) :
+    reduceInitFlow fs = fs.map fun f => ({ fields := [f], extent := f.extent } : Group K) := rfl
+
+/-- **public `overlap`, every value-carrying piece regenerated** (tests `len(fields) == 2` / `len(fields) > 1`, the pair value,
+the group construction of `_reduce`, the constants `return False` / `return True` of the many-branch) **is the model
+`overlapL`**, for all lists of fields. Swapping the two constants, the operands of the pair test or the construction breaks
+this. -/
+theorem overlap_flow_spec (fs : List (Fld K)) : overlapFlow fs = overlapL fs := by
+  unfold overlapFlow overlapL
+  rw [reduce_init_flow_spec]
+  split
+  · rfl
+  · cases Gen.overlapManyFalse _ <;> rfl
+
+/-- **public `merge(a, b, enforce_overlap)` from its regenerated pieces** (refusal test, `return _merge((a, b))`: which
+operands and in which order) **is the model `mergePublic`**, and the default `enforce_overlap=True` is the enforcing call -/
+theorem merge_public_flow_spec [Add K] [Zero K] (a b : ZFld K) (enforce : Bool) :
+    mergePublicFlow a b enforce = mergePublic a b enforce ∧
+    mergePublic a b Gen.mergeEnforceDefault = mergePublic a b true := by
+  refine ⟨?_, rfl⟩
+  unfold mergePublicFlow mergePublic
+  rw [overlap_flow_spec]; rfl
+/-- **the pair scan of `_disjoint`, regenerated (`for m, n in combinations(range(len(fields)), 2)`: `Gen.disjointScanR`, with
+`itertools.combinations` as `Lentil.combos`, the r-element sublists in lexicographic order of positions)**, is the index list
+the model `firstPair` searches: all (m, k) with m < k < n, m ascending, then k ascending — for every n; so `firstPair` finds
+the first intersecting pair in the order the loop visits them -/
+theorem disjoint_scan_spec (n : Nat) :
+    disjointScan n = (List.range n).flatMap fun m => ((List.range n).filter fun k => m < k).map fun k => (m, k) := by
+  rw [scan_pairs (List.range n) List.pairwise_lt_range]
+  exact combos_two_pairs (List.range n)
+
+theorem disjoint_first_pair_spec (gs : List (Group K)) :
+    firstPair gs = (disjointScan gs.length).find? fun (m, k) => match gs[m]?, gs[k]? with
+      | some gm, some gk => intersect gm.extent gk.extent
+      | _, _ => false := by
+  rw [disjoint_scan_spec]; rfl
+example : disjointScan 4 = [(0, 1), (0, 2), (0, 3), (1, 2), (1, 3), (2, 3)] := by decide
+example : overlapFlow ([] : List (Fld Int)) = true ∧ overlapFlow [Ex.A, Ex.B, Ex.A] = overlapL [Ex.A, Ex.B, Ex.A] := ⟨rfl, rfl⟩
+
+end public_flow
+
 /-! ## Compositions: a product fed into a merge / reduce (what `Plane.multiply` followed by `Wavefront.intensity` does) -/
 section compose
 variable {K : Type} [NonUnitalNonAssocSemiring K]
@@ -1297,6 +1345,13 @@ theorem insert_mode_eq (intensity : Bool) (nsq : K → K) (f : Fld K) (out : Arr
   cases Gen.insertIdx f.arr.s0 f.arr.s1 f.o0 f.o1 out.s0 out.s1 with
   | none => rfl
   | some v => cases intensity <;> rfl
+
+/-- **the defaults of `insert(field, out, intensity=False, weight=1)`, regenerated**: a call without keywords adds the field
+itself (not its intensity), with weight one -/
+theorem insert_defaults_spec (nsq : K → K) (f : Fld K) (out : Arr K) (w : K) :
+    insertArrMode Gen.insertDefaultIntensity nsq f out w = insertArr f out w ∧ Gen.insertDefaultWeight = 1 := by
+  refine ⟨?_, rfl⟩
+  rw [insert_mode_eq]; rfl
 
 /-- the shape of the target never changes -/
 theorem insert_shape (f : Fld K) (out : Arr K) (w : K) (post : K → K) :
